@@ -1,5 +1,6 @@
 import Audit.C01
 import Audit.C03
+import Audit.C04
 import Audit.C05
 import Audit.C09
 import Audit.C10
